@@ -14,7 +14,7 @@ import tempfile
 class Replayer:
     def __init__(self, binary, tmpdir, timeout=60, env=None):
         self.env = env
-        self.binary = binary
+        self.binary = binary if isinstance(binary, list) else [binary]
         self.tmpdir = tmpdir
         self.timeout = timeout
         self.attempts = 0
@@ -23,7 +23,7 @@ class Replayer:
     def run_file(self, path):
         """Returns (class or None, violation dict or None, owned flag)."""
         try:
-            p = subprocess.run([self.binary, "replay", path], stdout=subprocess.PIPE, stderr=subprocess.PIPE, text=True, timeout=self.timeout, env=self.env)
+            p = subprocess.run(self.binary + ["replay", path], stdout=subprocess.PIPE, stderr=subprocess.PIPE, text=True, timeout=self.timeout, env=self.env)
         except subprocess.TimeoutExpired:
             return "hang/replay", {"class": "hang/replay", "detail": "replay exceeded %ds" % self.timeout, "op_index": -1, "op_kind": "?"}, True
         if p.returncode < 0 or p.returncode > 2:
